@@ -248,16 +248,16 @@ theorem getKey_rvOf (n : String) (R : List StepRec) : getKey n (rvOf R) = (lastR
 /-! ### why a step succeeds or fails -/
 
 /-- the preprocessor stage of a step (a step without preprocessor yields no variables) -/
-def preStage (source : Val) (st : Step ReqDef) (rv : List (String × Val)) (it : Iter) :
+def preStage (w : World Req Resp) (source : Val) (st : Step ReqDef) (rv : List (String × Val)) (it : Iter) :
     Outcome (List (String × Val) × Iter) :=
   match st.req.pre with
   | none => .ok ([], it)
-  | some m => runPre (tree source (setKey st.req.name (.map []) rv)) st.req.iter m [] it
+  | some m => runPre w.fn (tree source (setKey st.req.name (.map []) rv)) st.req.iter m [] it
 
 /-- all four stages of a step succeed: preprocessor, templating, transport, extractors / assertions -/
 def StepSucceeds (w : World Req Resp) (source : Val) (st : Step ReqDef) (rv : List (String × Val)) (g : GState Req) : Prop :=
   ∃ pv it' req resp postv,
-    preStage source st rv g.iter = .ok (pv, it') ∧
+    preStage w source st rv g.iter = .ok (pv, it') ∧
     w.render st.req (tree source (setKey st.req.name (preOnly pv) rv)) = some req ∧
     w.target (g.hist ++ [req]) = some resp ∧
     runPosts w resp st.req.posts [] = some postv
@@ -273,7 +273,7 @@ theorem shootStep_outcome (w : World Req Resp) (source : Val) (scName : String) 
   · -- preprocessor error
     rename_i e hp
     cases h
-    have hp' : preStage source st rv g.iter = .err e := by
+    have hp' : preStage w source st rv g.iter = .err e := by
       unfold preStage
       cases hq : st.req.pre with
       | none => rw [hq] at hp; exact hp
@@ -282,7 +282,7 @@ theorem shootStep_outcome (w : World Req Resp) (source : Val) (scName : String) 
     rintro ⟨pv, it', _, _, _, h1, _⟩
     rw [hp'] at h1; cases h1
   · rename_i pv it' hp
-    have hp' : preStage source st rv g.iter = .ok (pv, it') := by
+    have hp' : preStage w source st rv g.iter = .ok (pv, it') := by
       unfold preStage
       cases hq : st.req.pre with
       | none => rw [hq] at hp; exact hp
@@ -290,7 +290,7 @@ theorem shootStep_outcome (w : World Req Resp) (source : Val) (scName : String) 
     have hkey : setKey st.req.name (Val.map [("preprocessor", Val.map pv)]) (setKey st.req.name (Val.map []) rv) =
         setKey st.req.name (preOnly pv) rv := by simp [preOnly, setKey_setKey]
     rw [hkey] at h
-    have inj : ∀ pv2 it2, preStage source st rv g.iter = .ok (pv2, it2) → pv2 = pv ∧ it2 = it' := by
+    have inj : ∀ pv2 it2, preStage w source st rv g.iter = .ok (pv2, it2) → pv2 = pv ∧ it2 = it' := by
       intro pv2 it2 h1
       rw [hp'] at h1
       cases h1; exact ⟨rfl, rfl⟩
